@@ -1,4 +1,5 @@
 import FluteModel.Lemmas.Total
+import FluteModel.Legacy
 /-
   C04 (parser part): no byte string can make the packet parser panic or hang.
 
@@ -59,6 +60,10 @@ theorem wire_total (d : List UInt8) :
       (getSenderCurrentTime (bytes d) p).isPanic = false ∧
       ∀ oti, knownFec oti.fecId = true → (parsePayloadId (bytes d) p oti).isPanic = false :=
   ⟨parse_total d, fun p h => ⟨sender_current_time_total d p h, fun oti hk => parse_payload_id_total d p oti h hk⟩⟩
+
+/-- D1 witness (pre-repair code): the 3-byte datagram `10 00 00` passed the length check (HDR_LEN = 0) and
+    panicked on `data[3]` -/
+theorem legacy_parse_panics : (Legacy.parseLctHeaderHead (bytes [0x10, 0, 0])).isPanic = true := by decide
 
 /-- non-vacuity: the D1 witness `[0x10, 0, 0]` is now rejected, a well-formed packet is accepted -/
 example : parseAlcPkt (bytes [0x10, 0, 0]) = .err := by decide
